@@ -1221,7 +1221,10 @@ pub fn c11(ctx: &mut Ctx) -> R {
         ctx.count("f:peer_late_100");
     }
     // what was delivered
-    ensure!(obs.skipped_100 == late_100 as usize, "C11.late_100_skip_count", "{} interim responses skipped, expected {}", obs.skipped_100, late_100 as usize);
+    // how the skip is split over calls is not part of the statement (one call may skip the late 100
+    // and return the real response): that it was skipped shows in the single surfaced response
+    // and in the consumed count below
+    ensure!(obs.skipped_100 <= late_100 as usize, "C11.late_100_skip_count", "{} interim responses skipped, expected at most {}", obs.skipped_100, late_100 as usize);
     ensure!(obs.responses.len() == 1, "C11.response_count", "{} responses surfaced (statuses {:?})", obs.responses.len(), obs.responses.iter().map(|r| r.status).collect::<Vec<_>>());
     if let Err(e) = check_resp_obs(&obs.responses[0], &final_plan.head) {
         fail!("C11.response_not_intact", "", "{}", e);
